@@ -110,11 +110,13 @@ def paths(model: Model, body: Callable[[Interp], Any], limit: int = 20000) -> Li
     return out
 
 
-def expr_stub(it: Interp, model: Model, result: Any, label: str = "expr") -> Inst:
-    """An Expression whose evaluate(context) returns *result* (AV or callable)."""
-    ci = model.cls("filter_expressions.Expression")
+def expr_stub(it: Interp, model: Model, result: Any, label: str = "expr", cls_qual: str = "filter_expressions.Expression") -> Inst:
+    """An Expression (of the given class) whose evaluate(context) returns *result* (AV or callable)."""
+    ci = model.cls(cls_qual)
     inst = it.harness_inst(ci, label)
     inst.attrs["token"] = it.new_opaque(f"{label}.token", model.cls("tokens.Token"))
+    if ci.find_method("__init__") is not None and "query" in [a.arg for a in ci.find_method("__init__").node.args.args]:
+        inst.attrs["query"] = it.new_opaque(f"{label}.query", model.cls("query.JSONPathQuery"))
     it.stubs[(inst.id, "evaluate")] = result
     return inst
 
@@ -206,6 +208,14 @@ def real_env(it: Interp, model: Model, nondet: Any = None) -> Inst:
     for obj, label in ((env, "env"), (env.attrs.get("parser"), "parser")):
         if isinstance(obj, Inst):
             it.havoc_written(obj, label)
+    # the registry is a public attribute: a user (or a subclass's setup) may rebind it to another dict after the
+    # parser was created, so nothing built earlier may keep relying on the object that was there at construction
+    reg = env.attrs.get("function_extensions")
+    if isinstance(reg, PyDict):
+        fresh = PyDict(depth=it.loop_depth, oid=it.ctx.new_id())
+        fresh.items.update(reg.items)
+        fresh.keys_av.update(reg.keys_av)
+        env.attrs["function_extensions"] = fresh
     return env
 
 
